@@ -2858,6 +2858,10 @@ fn finish_report(mut ag: Aggr, planned: u64, stats: &tot::ParentStats, scratch: 
     if stats.allocator_missing > 0 {
         ag.rep.assume("counting allocator not installed in this build (mzv_no_counting_alloc): the allocation bound was not monitored");
     }
+    {
+        let (seed_for_family, thorough_for_family) = (ag.rep.ctx.seed, ag.rep.ctx.tier == Tier::Thorough);
+        family_vk_headers(&mut ag.rep, seed_for_family, if thorough_for_family { 24 } else { 8 });
+    }
     ag.rep.min_nontrivial = planned / 2;
     ag.rep.assume("ParamsKZG::unsafe_setup with a seeded ChaCha stream stands in for the absent SRS files");
     ag.rep.assume("MidnightPK, full ParamsKZG and the RawBytesUnchecked reader are local/trusted artefacts: exercised, counted under reported_only, never violations");
@@ -2867,6 +2871,60 @@ fn finish_report(mut ag: Aggr, planned: u64, stats: &tot::ParentStats, scratch: 
         tot::remove_scratch(scratch);
     }
     ag.rep.finish()
+}
+
+/// Verifying keys of GENERATED circuits (constraint systems of many degrees, unlike the stdlib
+/// architecture whose degree is fixed): every value of every header byte (version, k, commitment
+/// count) and every truncation point, in both formats; `VerifyingKey::read` must return a value.
+fn family_vk_headers(rep: &mut Report, seed: u64, n_specs: usize) {
+    use midnight_curves::Fq;
+    use midnight_proofs::{plonk::VerifyingKey, utils::SerdeFormat};
+    use mzv::engines::{gen_circuit::*, plonk_util::*};
+    let mut rng = rng_for(seed, "c16-family-vk");
+    let mut done = 0;
+    let mut attempts = 0;
+    let mut degrees = std::collections::BTreeSet::new();
+    while done < n_specs && attempts < n_specs * 10 {
+        attempts += 1;
+        let mut knobs = GenKnobs::sample(&mut rng);
+        knobs.n_gates = knobs.n_gates.max(1);
+        // spread the constraint-system degree
+        knobs.max_degree = 2 + (attempts % 6);
+        let Some(spec) = gen_spec::<Fq>(&mut rng, &knobs, 6) else { continue };
+        let Ok((vk, _)) = keygen_family(&spec) else { continue };
+        done += 1;
+        degrees.insert(vk.cs().degree());
+        for (fname, f) in [("Processed", SerdeFormat::Processed), ("RawBytes", SerdeFormat::RawBytes)] {
+            let bytes = vk.to_bytes(f);
+            let header = 6.min(bytes.len());
+            let mut cases: Vec<(String, Vec<u8>)> = vec![];
+            for pos in 0..header {
+                for v in 0..=255u8 {
+                    if bytes[pos] != v {
+                        let mut b = bytes.clone();
+                        b[pos] = v;
+                        cases.push((format!("byte@{pos}={v}"), b));
+                    }
+                }
+            }
+            for cut in 0..bytes.len().min(64) {
+                cases.push((format!("truncate@{cut}"), bytes[..cut].to_vec()));
+            }
+            for (what, b) in cases {
+                rep.eval();
+                let r = catch_any(|| VerifyingKey::<Fq, CS>::from_bytes::<GenCircuit>(&b, f, spec.clone()).is_ok());
+                if let Err(p) = r {
+                    rep.violation(
+                        &format!("C16/VerifyingKey(generated)/{fname}/panic@{} header", repo_file(&p.file)),
+                        &format!("VerifyingKey::read of a generated circuit's key (constraint-system degree {}) panics for {what}: {}", vk.cs().degree(), p.message),
+                        json!({"spec": spec, "format": fname, "mutation": what, "bytes_hex": hx(&b)}),
+                    );
+                }
+            }
+            rep.nontrivial(&("family-vk", done, fname));
+        }
+    }
+    rep.set("generated_vk_headers", json!({"circuits": done, "constraint_system_degrees": degrees}));
 }
 
 fn main() {
